@@ -210,6 +210,13 @@ def main():
             subprocess.run("git -C /repo worktree prune", shell=True)
     rec["valid_seed"] = ok
     dst = os.path.join(VERIF, "seeded", name)
+    history = []
+    if os.path.exists(os.path.join(dst, "meta.json")):
+        try:
+            oldm = json.load(open(os.path.join(dst, "meta.json")))
+            history = oldm.get("validation_history", []) + [oldm.get("validation")]
+        except Exception:
+            history = []
     if ok:
         shutil.rmtree(dst, ignore_errors=True)
         os.makedirs(dst)
@@ -220,6 +227,8 @@ def main():
         shutil.copytree(os.path.join(seed, "demo"), os.path.join(dst, "demo"))
         m = dict(meta)
         m["validation"] = rec
+        if history:
+            m["validation_history"] = history      # earlier validations (e.g. before a check was strengthened)
         json.dump(m, open(os.path.join(dst, "meta.json"), "w"), indent=1)
     print(json.dumps({"seed": name, "valid": ok, "checks": rec.get("checks"),
                       "ran": [(r["what"], r["rc"], r.get("s")) for r in rec["ran"]]}, indent=1))
